@@ -15,13 +15,20 @@ or spec column and no predicate accepts."""
 from props.common import hx
 
 
-def chain(obj, block, first):
-    """obj: the ONE cipher object of the line; block(): the operand (built anew for every call, the object is what is
+def chain(obj, block, first, sibling=None):
+    """obj: the ONE cipher object of the line; sibling(): builds (and may use, or be refused) OTHER objects of the same
+    class between the calls — a cipher object is a function of (key, block) whatever else is alive in the process; block(): the operand (built anew for every call, the object is what is
     shared); first: 'enc' or 'dec'.  Exceptions of the line's own two calls propagate (-> ERR, as before); an exception
     in the rest of the chain is a note (the same calls were accepted on a new object)."""
     f, g = (obj.enc, obj.dec) if first == 'enc' else (obj.dec, obj.enc)
     fn, gn = ('enc', 'dec') if first == 'enc' else ('dec', 'enc')
+    def others():
+        if sibling is None: return
+        try: sibling()
+        except Exception as e:
+            if type(e).__name__ == '_Timeout': raise
     x = f(block())
+    others()
     y = g(x)
     notes = []
     def later(what, call, expect=None):
@@ -31,6 +38,7 @@ def chain(obj, block, first):
             notes.append('%s:raised-%s' % (what, type(e).__name__)); return None
         if expect is not None and bytes(r) != bytes(expect): notes.append('%s=%s' % (what, hx(r)))
         return r
+    others()
     u = later('then-%s(B)' % gn, lambda: g(block()))
     if u is not None: later('then-%s(%s(B))' % (fn, gn), lambda: f(u), y)
     later('%s(B)-again' % fn, lambda: f(block()), x)
@@ -43,7 +51,7 @@ def notes_of(res):
     return 'on ONE object: ' + ', '.join(res.split('!')[1:])
 
 
-def used(obj, block, op):
+def used(obj, block, op, sibling=None):
     """C02 lines `X.enc` / `X.dec`: the object first performs the OPPOSITE operation on the same operand (result and
     exceptions ignored), then the requested one — a cipher object is a function of (key, block), so whatever the first
     call caches in or does to the object must not show in the second (cached key schedules reversed in place, spent
@@ -60,4 +68,8 @@ def used(obj, block, op):
         first(block())
     except Exception as e:
         if type(e).__name__ == '_Timeout': raise
+    if sibling is not None:
+        try: sibling()
+        except Exception as e:
+            if type(e).__name__ == '_Timeout': raise
     return (obj.enc if op == 'enc' else obj.dec)(block())
